@@ -462,7 +462,8 @@ pub fn gen_c13(rng: &mut Rng, thorough: bool, run_index: u64) -> WorldTrace {
         // a larger directory: 3-12 more one-declaration files, some with names that differ only
         // in letter case or extension from others, some hidden
         let odd = [".hidden.st", "A.ST", "a.iec", "b.st.bak", "B.st", "lib.st", "MAIN.st", "zz.txt"];
-        for i in 0..rng.range(3, 12) {
+        let many = if rng.chance(1, 6) { rng.range(20, 70) } else { rng.range(3, 12) };
+        for i in 0..many {
             let name = if rng.chance(1, 3) { odd[rng.below(odd.len())].to_string() } else { format!("x{i}.st") };
             if files.iter().any(|f| f.name == name) {
                 continue;
@@ -728,7 +729,20 @@ const UNICODE_EXTRAS: &[&str] = &["→ 日本語", "Ω ≈ ∑", "😀 emoji", "
 fn decorate(rng: &mut Rng, world: &mut World, repertoire_1252: bool, allow_big: bool) {
     for d in world.decls.iter_mut() {
         let extra = if repertoire_1252 || rng.chance(1, 2) { *rng.pick(W1252_EXTRAS) } else { *rng.pick(UNICODE_EXTRAS) };
-        match rng.below(6) {
+        match rng.below(8) {
+            6 if rng.chance(1, 3) => {
+                // a no-break space between two tokens: not layout, the same lexical error in every encoding
+                d.text = d.text.replacen(" : ", "\u{a0}: ", 1);
+            }
+            7 if rng.chance(1, 3) => {
+                // DOS end-of-file character / no final line break
+                if rng.chance(1, 2) {
+                    d.text.push('\u{1a}');
+                } else {
+                    d.text = d.text.trim_end().to_string();
+                }
+            }
+            6 | 7 => {}
             4 => {
                 // an OSCAT description header (blanked by the preprocessor) holding non-ASCII text
                 if let Some(p) = d.text.find('\n') {
